@@ -83,6 +83,11 @@ int run(const Args& A) {
                         STATS.hit(std::string("err.") + errName(e));
                     }
                 }
+                // result forest must stay canonical with exact counts
+                if (round == rounds - 1) {
+                    emitAudit("Fc", fs[2].F, fs[2].k);
+                    if (fs[0].F != fs[2].F) emitAudit("Fa", fs[0].F, fs[0].k);
+                }
                 // operands must be unchanged
                 emit("table A Fa %s", tableStr(tableOf(D, a)).c_str());
                 emit("table B Fb %s", tableStr(tableOf(D, b)).c_str());
